@@ -16,6 +16,12 @@ package websocket
 //   Output: wire=<hex> errs=<per op: ok|…> spy=<per op: sizes of the Writes that reached the message writer
 //   below the compressor, or -> rd=<events of the reading peer> rw=<frames the reader wrote back>
 //
+//   pool side=s|c comp=0|1 wbuf=N a=<typ>:<hex>;<typ>:<hex>;… b=<typ>:<hex>
+//     Two connections A and B share one WriteBufferPool.  A writes its messages with WriteMessage; every time
+//     A's net.Conn receives a Write (i.e. while that socket write is "in flight", before the bytes have left A's
+//     buffer) B writes its message completely.  Each capture is then read by a real peer.
+//     Output: wa=<hex> wb=<hex> nb=<number of B messages> ra=<events A's peer read> rb=<events B's peer read>
+//
 //   tw chunks=<hex>/<hex>/…   the real truncWriter over a recording writer → out=<hex>/… held=<hex>
 //   mask key=<hex> pos=N align=N data=<hex>   the real maskBytes on a slice starting `align` bytes past an
 //     8-byte boundary → out=<hex> pos=N
@@ -41,7 +47,22 @@ type verifC30Conn struct {
 	pos   int
 	chunk int
 	w     bytes.Buffer
+	// called at the start of every Write, before the bytes are captured
+	onWrite func()
 }
+
+// verifC30Pool is a deterministic LIFO BufferPool.
+type verifC30Pool struct{ items []interface{} }
+
+func (p *verifC30Pool) Get() interface{} {
+	if len(p.items) == 0 {
+		return nil
+	}
+	v := p.items[len(p.items)-1]
+	p.items = p.items[:len(p.items)-1]
+	return v
+}
+func (p *verifC30Pool) Put(v interface{}) { p.items = append(p.items, v) }
 
 func (c *verifC30Conn) Read(p []byte) (int, error) {
 	if c.pos >= len(c.data) {
@@ -58,7 +79,12 @@ func (c *verifC30Conn) Read(p []byte) (int, error) {
 	c.pos += n
 	return n, nil
 }
-func (c *verifC30Conn) Write(p []byte) (int, error)        { return c.w.Write(p) }
+func (c *verifC30Conn) Write(p []byte) (int, error) {
+	if c.onWrite != nil {
+		c.onWrite() // something else happens while this write is in flight; p is captured afterwards
+	}
+	return c.w.Write(p)
+}
 func (c *verifC30Conn) Close() error                       { return nil }
 func (c *verifC30Conn) LocalAddr() net.Addr                { return nil }
 func (c *verifC30Conn) RemoteAddr() net.Addr               { return nil }
@@ -157,7 +183,11 @@ func verifC30Wr(kv map[string]string) string {
 	isServer := kv["side"] == "s"
 	comp := kv["comp"] == "1"
 	nc := &verifC30Conn{}
-	c := newConn(nc, isServer, 0, num("wbuf"), nil, nil, nil)
+	var wpool BufferPool
+	if kv["pool"] == "1" {
+		wpool = &verifC30Pool{}
+	}
+	c := newConn(nc, isServer, 0, num("wbuf"), wpool, nil, nil)
 	var spyCur []string
 	if comp {
 		c.newDecompressionReader = decompressNoContextTakeover
@@ -279,6 +309,80 @@ func verifC30Wr(kv map[string]string) string {
 		verifC30Hex(pc.w.Bytes()))
 }
 
+func verifC30ReadAll(wire []byte, isServer, comp bool) string {
+	pc := &verifC30Conn{data: wire}
+	p := newConn(pc, isServer, 0, 0, nil, nil, nil)
+	if comp {
+		p.newDecompressionReader = decompressNoContextTakeover
+		p.newCompressionWriter = compressNoContextTakeover
+	}
+	var ev []string
+	p.SetPingHandler(func(b []byte) error { ev = append(ev, "pi:"+verifC30Hex(b)); return nil })
+	p.SetPongHandler(func(b []byte) error { ev = append(ev, "po:"+verifC30Hex(b)); return nil })
+	for i := 0; i < len(wire)+4; i++ {
+		mt, data, err := p.ReadMessage()
+		if err != nil {
+			ev = append(ev, verifC30ReadErr(err))
+			break
+		}
+		ev = append(ev, fmt.Sprintf("m%d:%s", mt, verifC30Hex(data)))
+	}
+	return strings.Join(ev, ",")
+}
+
+func verifC30Pool2(kv map[string]string) string {
+	isServer := kv["side"] == "s"
+	comp := kv["comp"] == "1"
+	wbuf, _ := strconv.Atoi(kv["wbuf"])
+	pool := &verifC30Pool{}
+	na, nb := &verifC30Conn{}, &verifC30Conn{}
+	a := newConn(na, isServer, 0, wbuf, pool, nil, nil)
+	b := newConn(nb, isServer, 0, wbuf, pool, nil, nil)
+	if comp {
+		a.newCompressionWriter = compressNoContextTakeover
+		b.newCompressionWriter = compressNoContextTakeover
+	}
+	bf := strings.Split(kv["b"], ":")
+	if len(bf) != 2 {
+		return "bad-op"
+	}
+	btyp, _ := strconv.Atoi(bf[0])
+	bdata, ok := verifC30Unhex(bf[1])
+	if !ok {
+		return "bad-op"
+	}
+	count := 0
+	var berr error
+	na.onWrite = func() {
+		if err := b.WriteMessage(btyp, bdata); err != nil && berr == nil {
+			berr = err
+		}
+		count++
+	}
+	var errs []string
+	for _, m := range strings.Split(kv["a"], ";") {
+		if m == "" {
+			continue
+		}
+		f := strings.Split(m, ":")
+		if len(f) != 2 {
+			return "bad-op"
+		}
+		typ, _ := strconv.Atoi(f[0])
+		data, ok := verifC30Unhex(f[1])
+		if !ok {
+			return "bad-op"
+		}
+		errs = append(errs, verifC30Err(a.WriteMessage(typ, data)))
+	}
+	e := "-"
+	if len(errs) > 0 {
+		e = strings.Join(errs, ",")
+	}
+	return fmt.Sprintf("wa=%s wb=%s nb=%d errs=%s berr=%s ra=%s rb=%s", verifC30Hex(na.w.Bytes()), verifC30Hex(nb.w.Bytes()),
+		count, e, verifC30Err(berr), verifC30ReadAll(na.w.Bytes(), !isServer, comp), verifC30ReadAll(nb.w.Bytes(), !isServer, comp))
+}
+
 type verifC30Rec struct{ out []string }
 
 func (r *verifC30Rec) Write(p []byte) (int, error) {
@@ -306,6 +410,8 @@ func verifC30Step(line string) (res string) {
 	switch ws[0] {
 	case "wr":
 		return verifC30Wr(kv)
+	case "pool":
+		return verifC30Pool2(kv)
 	case "tw":
 		chunks, ok := verifC30Chunks(kv["chunks"])
 		if !ok {
